@@ -124,7 +124,9 @@ func (p *streamstatsProcessor) Process(iqr *iqr.IQR) (*iqr.IQR, error) {
 			bucketKey = ""
 			for _, colName := range p.options.GroupByRequest.GroupByColumns {
 				if val, ok := requiredValues[colName]; ok && i < len(val) {
-					bucketKey += fmt.Sprintf("%v_", val[i].CVal)
+					// Quote every value so that the key of a tuple is unambiguous:
+					// plain concatenation made ("a_b", "c") and ("a", "b_c") one bucket.
+					bucketKey += fmt.Sprintf("%q_", fmt.Sprint(val[i].CVal))
 				}
 			}
 		}
